@@ -109,6 +109,9 @@ pub struct PollSys {
     pub timeout: u64,
     /// the exact timeout in microseconds (a timeout need not be a whole number of milliseconds)
     pub timeout_us: u64,
+    /// an astronomically long timeout given as a Duration (never expires within any explored age);
+    /// chosen so that a conversion truncated to 32 or 64 bits aliases it to zero
+    pub exotic: Option<(Duration, &'static str)>,
     pub cap: u64,
     /// long pauses offered as single actions (ms)
     pub pauses: Vec<u64>,
@@ -176,6 +179,7 @@ impl PollSys {
             ch,
             timeout,
             timeout_us: timeout.saturating_mul(1000),
+            exotic: None,
             cap: cap_for(timeout, cap_mult),
             pauses: if WRAP16.load(Ordering::Relaxed) { vec![998, 1000, (1 << 16) - 2, 1 << 16, (1 << 20) + 100, (1 << 32) - 2, 1 << 32] } else { vec![998, 1000, (1 << 20) + 100, (1 << 32) - 2, 1 << 32] },
             storms: Vec::new(),
@@ -195,7 +199,19 @@ impl PollSys {
     }
 
     pub fn new_scanner(&self) -> PollingParameterNumberMessageScanner {
-        PollingParameterNumberMessageScanner::new(Duration::from_micros(self.timeout_us))
+        match self.exotic {
+            Some((d, _)) => PollingParameterNumberMessageScanner::new(d),
+            None => PollingParameterNumberMessageScanner::new(Duration::from_micros(self.timeout_us)),
+        }
+    }
+
+    /// An astronomically long timeout (behaves as "infinite" for the oracle).
+    pub fn with_exotic(mut self, d: Duration, label: &'static str) -> Self {
+        self.timeout = T_INF;
+        self.timeout_us = T_INF.saturating_mul(1000);
+        self.cap = cap_for(T_INF, 1);
+        self.exotic = Some((d, label));
+        self
     }
 
     /// All cycles of length 1..=3 over {8 contributing controllers (value 1), poll, 1 ms tick}.
@@ -277,7 +293,9 @@ impl PollSys {
         Violation::lazy(rule, format!("{}/PollingParameterNumberMessageScanner/{}/{}/T={}", self.pid, rule, cls, self.tname()), detail)
     }
     pub fn tname(&self) -> String {
-        if self.timeout >= T_INF {
+        if let Some((_, label)) = self.exotic {
+            label.to_string()
+        } else if self.timeout >= T_INF {
             "inf".to_string()
         } else if self.timeout_us % 1000 != 0 {
             format!("{}us", self.timeout_us)
@@ -705,7 +723,10 @@ impl System for PollSys {
         }
     }
     fn rust_preamble(&self) -> String {
-        format!("// build with RUSTFLAGS=\"--cfg helgoboss_midi_verif\" for the mock clock\n    let mut scanner = helgoboss_midi::PollingParameterNumberMessageScanner::new(std::time::Duration::from_micros({}));\n    let mut clock = 0u64;", self.timeout_us)
+        match self.exotic {
+            Some((d, _)) => format!("// build with RUSTFLAGS=\"--cfg helgoboss_midi_verif\" for the mock clock\n    let mut scanner = helgoboss_midi::PollingParameterNumberMessageScanner::new(std::time::Duration::new({}, {}));\n    let mut clock = 0u64;", d.as_secs(), d.subsec_nanos()),
+            None => format!("// build with RUSTFLAGS=\"--cfg helgoboss_midi_verif\" for the mock clock\n    let mut scanner = helgoboss_midi::PollingParameterNumberMessageScanner::new(std::time::Duration::from_micros({}));\n    let mut clock = 0u64;", self.timeout_us),
+        }
     }
     fn rust_line(&self, a: &PoAct) -> String {
         match a {
@@ -971,14 +992,39 @@ fn run_observer(chk: &xs::Check, tier: xs::Tier, pid: &'static str, report: PRep
     }
 }
 
+/// Timeouts so long that they never expire, each chosen so that one plausible lossy conversion
+/// aliases it to ZERO: 2^32 ms (as u32 milliseconds), 2^55 s (as u64 nanoseconds), 2^58 s (as u64
+/// microseconds), 2^61 s (as u64 milliseconds), plus Duration::MAX.
+pub fn exotic_timeouts() -> Vec<(Duration, &'static str)> {
+    vec![
+        (Duration::from_millis(1 << 32), "2^32ms"),
+        (Duration::from_secs(1 << 55), "2^55s"),
+        (Duration::from_secs(1 << 58), "2^58s"),
+        (Duration::from_secs(1 << 61), "2^61s"),
+        (Duration::MAX, "Duration::MAX"),
+    ]
+}
+
+fn run_exotic(chk: &xs::Check, pid: &'static str, report: PReport) {
+    use xs::{engine, Limits};
+    for (d, label) in exotic_timeouts() {
+        let mut sys = PollSys::new(pid, 4, T_INF, 1, &[1], false, report).with_exotic(d, label);
+        sys.pauses = vec![1 << 20];
+        let out = xs::explore(&sys, &Limits::default());
+        engine::record(chk, &sys, &out, None);
+    }
+}
+
 pub fn run_c13(chk: &xs::Check, tier: xs::Tier) {
-    chk.rule("reachability fixpoint of the real PollingParameterNumberMessageScanner under a mock clock x history observer, for timeouts {0, 2 ms, 2^40 ms}; actions: 8 contributing controllers x byte domain, two non-contributing messages, poll, reset, 1 ms tick (so pending bytes are polled at every age below, at and above the timeout). Rules judged on every transition: R1 poll returns only a pending MSB whose age >= timeout, and exactly it; R2 an expired pending MSB is returned; R3 an early poll changes nothing; R4 each feed re-executed 1, T, T+1 and CAP ms later returns the same; R5 an unpaired LSB polled after the timeout is dropped");
+    chk.rule("reachability fixpoint of the real PollingParameterNumberMessageScanner under a mock clock x history observer, for timeouts {0, 0.5 ms, 1.5 ms, 2 ms, 2^40 ms} and (small byte domain) five astronomically long timeouts that alias to zero under a truncating conversion (2^32 ms, 2^55 s, 2^58 s, 2^61 s, Duration::MAX); actions: 8 contributing controllers x byte domain, two non-contributing messages, poll, reset, 1 ms tick (so pending bytes are polled at every age below, at and above the timeout). Rules judged on every transition: R1 poll returns only a pending MSB whose age >= timeout, and exactly it; R2 an expired pending MSB is returned; R3 an early poll changes nothing; R4 each feed re-executed 1, T, T+1 and CAP ms later returns the same; R5 an unpaired LSB polled after the timeout is dropped");
     run_observer(chk, tier, "C13", PReport { c13: true, ..Default::default() });
+    run_exotic(chk, "C13", PReport { c13: true, ..Default::default() });
     chk.sample(serde_json::json!({"history": ["cc 99 =1", "cc 98 =0", "cc 6 =127", "tick", "poll (age 1 < timeout 2) -> None, state unchanged", "tick", "poll (age 2) -> NRPN-7bit(128, 127)", "poll -> None"]}));
 }
 
 pub fn run_c14(chk: &xs::Check, tier: xs::Tier) {
     chk.rule("same product as C13; rules judged on every transition: P1 channel of the triggering call; P2 nothing before a complete number, number/kind from the latest number bytes before the call; P3 inc/dec only from the current 96/97 message; P4 a 7-bit data entry carries the most recent controller-6 byte fed before the call, never reported/used before; P5 a 14-bit carries the most recent controller-6 and -38 bytes up to and including the current message; P6 a pending controller-6 byte is reported by the next contributing message or the first poll after the timeout; P7 two messages only for inc/dec after a pending MSB, data entry first");
     run_observer(chk, tier, "C14", PReport { c14: true, c13: false, ..Default::default() });
+    run_exotic(chk, "C14", PReport { c14: true, c13: false, ..Default::default() });
     chk.sample(serde_json::json!({"history": ["cc 101 =0", "cc 100 =1", "cc 6 =5", "cc 99 =7 -> RPN-7bit(number 1, value 5) (flush with the OLD number and kind)", "cc 6 =9", "cc 97 =1 -> [NRPN-7bit(897, 9), NRPN-decrement(897, 1)]"]}));
 }
